@@ -81,6 +81,53 @@ Theorem C10_write_mismatch : forall s wl data off id pre c post,
 Proof. exact write_mismatch. Qed.
 Print Assumptions C10_write_mismatch.
 
+(* write followed by a read of the same range returns exactly the data written; the rest
+   of that FRU and every other FRU are unchanged (two client operations in sequence on the
+   same device) *)
+Theorem C10_write_then_read : forall s wl data off id,
+  id < 256 -> 1 <= wl -> wl <= 255 -> (forall k n, fd_ack s k n = n) ->
+  2 <= fd_limit s -> is_backoff_cc (fd_rej s) = true ->
+  off + len data <= len (fd_mem s id) -> len (fd_mem s id) <= 65536 ->
+  exists s' tr,
+    run (dop _ <- write_fru_data wl data off id; read_fru_data (Some (off, len data)) id) fru_dev s []
+      = (Ok data, s', tr)
+    /\ fd_mem s' id = firstn (N.to_nat off) (fd_mem s id) ++ data
+                      ++ skipn (N.to_nat off + length data) (fd_mem s id)
+    /\ (forall i, i <> id -> fd_mem s' i = fd_mem s i)
+    /\ Forall (fun x => req_fru_id (fst x) = Some id) tr.
+Proof. exact write_then_read. Qed.
+Print Assumptions C10_write_then_read.
+
+(* ... and a read of the whole area afterwards returns the updated area *)
+Theorem C10_write_then_read_whole : forall s wl data off id,
+  id < 256 -> 1 <= wl -> wl <= 255 -> (forall k n, fd_ack s k n = n) ->
+  2 <= fd_limit s -> is_backoff_cc (fd_rej s) = true ->
+  off + len data <= len (fd_mem s id) -> len (fd_mem s id) <= 65535 ->
+  exists s' tr,
+    run (dop _ <- write_fru_data wl data off id; read_fru_data_full id) fru_dev s []
+      = (Ok (firstn (N.to_nat off) (fd_mem s id) ++ data
+             ++ skipn (N.to_nat off + length data) (fd_mem s id)), s', tr)
+    /\ (forall i, i <> id -> fd_mem s' i = fd_mem s i)
+    /\ Forall (fun x => req_fru_id (fst x) = Some id) tr.
+Proof. exact write_then_read_whole. Qed.
+Print Assumptions C10_write_then_read_whole.
+
+(* thin wrappers: get_fru_inventory_area_info = size of the named FRU's area, one request,
+   device unchanged; read_fru_data_full = the whole area *)
+Theorem C10_area_info : forall s id, id < 256 -> len (fd_mem s id) <= 65535 ->
+  run (get_fru_inventory_area_info id) fru_dev s []
+  = (Ok (len (fd_mem s id)), s, [(info_req id, RBytes (0 :: le_bytes 2 (len (fd_mem s id)) ++ [0]))]).
+Proof. exact area_info_exact. Qed.
+Print Assumptions C10_area_info.
+
+Theorem C10_read_full : forall s id,
+  id < 256 -> 2 <= fd_limit s -> is_backoff_cc (fd_rej s) = true ->
+  len (fd_mem s id) <= 65535 ->
+  exists tr, run (read_fru_data_full id) fru_dev s [] = (Ok (fd_mem s id), s, tr)
+          /\ Forall (fun x => req_fru_id (fst x) = Some id) tr.
+Proof. exact read_full_exact. Qed.
+Print Assumptions C10_read_full.
+
 (* non-vacuity: a device with limit 2 and code 0xC8 satisfies the hypotheses, and the
    model really reads through it (13 bytes at offset 3 of FRU 7); a wrongly
    acknowledged second chunk is reached *)
